@@ -240,7 +240,7 @@ fn ops_json(ops: &[Op]) -> String {
 pub fn run(args: &Args, rep: &mut Report) {
     std::panic::set_hook(Box::new(|_| {}));
     let miri = cfg!(miri);
-    let n = args.get_u64("n", if miri { 16 } else if args.tier_thorough { 100_000 } else { 3_000 });
+    let n = args.get_u64("n", if miri { 16 } else if args.tier_thorough { 300_000 } else { 3_000 });
     let dir = args.get("scratch").unwrap_or("/tmp").to_string();
     let path = format!("{}/vq-archive-{}-{}.agc", dir, std::process::id(), args.shard);
     let only: Option<u64> = args.case.as_ref().and_then(|c| c.parse().ok());
